@@ -40,8 +40,12 @@ REG = dict(
         "hypotheses of the theorems are checked on every table before it is evaluated: levels in [0,1], non-decreasing, "
         "lower level 0 below the sample, upper level 1 at the largest observation",
         "large n (> 80): Durbin / Marsaglia-Tsang-Wang matrix algorithm for P[D_n <= eps], cross-checked against scipy.stats.kstwo",
+        "CITED, NOT PROVED, n >= 100 000 only: the Pelz-Good (1976) expansion K0 + K1/n^(1/2) + K2/n + K3/n^(3/2) of P[D_n <= eps] "
+        "(harness/ks_oracle.py, mpmath); validated in every run against the matrix algorithm on that run's eps values at n >= 5000 "
+        "(incl. n = 5000 and 20000) to 1e-7 -- otherwise the stratum is skipped, never judged",
     ],
-    assumptions=["continuous F (no ties)", "n_jobs=1 in the check (n_jobs independence is C14)"],
+    assumptions=["continuous F (no ties)", "ld methods: n_jobs in {1, 2, 3, 4, 16, None} (worker counts that divide n, do not divide n, exceed n); "
+                 "dkw/ks: n_jobs=1 (they do not use it; bitwise n_jobs independence is C14)"],
 )
 TEXT = dict(
     level="Partial proof. Proved (universal): band contains every continuous non-decreasing F everywhere iff F passes through the box "
